@@ -690,3 +690,6 @@ PROPS = {
 
 for _p in PROPS:
     NOT_APPLICABLE.pop(_p, None)
+
+# development only (tools/mutate_kani.py): the three big Z80 groups as one campaign target
+K_Z80_SAMPLE = k_z80("K-z80::sample", ["plain_all", "cbx_all", "ed_all"])
